@@ -388,6 +388,13 @@ func (st *State) heap(key string, s Sort) *Term {
 	st.heaps[key] = h
 	// type safety of the initial heap: every reference stored in memory that exists at function
 	// entry points to memory that exists at function entry (it cannot be a later allocation)
+	// (not in the package initialiser's run, where nothing exists at entry: alloc0 is the literal 0)
+	if a0, isLit := int64(-1), false; st.alloc0 != nil {
+		a0, isLit = st.alloc0.Int64()
+		if isLit && a0 == 0 {
+			return h
+		}
+	}
 	if (strings.HasSuffix(key, ".$ref") || strings.HasSuffix(key, ".$mref")) && st.alloc0 != nil && s == SHInt {
 		r, i := Var("r!ht", SInt), Var("i!ht", SInt)
 		cell := Select(Select(h, r), i)
